@@ -442,6 +442,61 @@ func init() {
 		p.callValue(a[1], nil, nil, nil)
 		return nil
 	})
+	// sync.Map: single-goroutine model, an insertion-ordered association list per map object
+	// (Range visits in insertion order: one of the orders the real map may use)
+	syncMap := func(p *Path, v Value) *MapObj {
+		ptr := v.(PtrV)
+		key := fmt.Sprintf("syncmap:%d%v", ptr.c.id, ptr.path)
+		if m, ok := p.aux[key]; ok {
+			return m.(*MapObj)
+		}
+		m := p.newMap(nil, nil)
+		p.aux[key] = m
+		return m
+	}
+	nilIface := IfaceV{}
+	reg("(*sync.Map).Load", func(p *Path, fn *ssa.Function, a []Value) Value {
+		m := syncMap(p, a[0])
+		if i := p.mapFind(m, a[1]); i >= 0 {
+			return TupleV{m.entries[i].v, mkBool(true)}
+		}
+		return TupleV{nilIface, mkBool(false)}
+	})
+	reg("(*sync.Map).Store", func(p *Path, fn *ssa.Function, a []Value) Value {
+		p.mapSet(syncMap(p, a[0]), a[1], a[2])
+		return nil
+	})
+	reg("(*sync.Map).LoadOrStore", func(p *Path, fn *ssa.Function, a []Value) Value {
+		m := syncMap(p, a[0])
+		if i := p.mapFind(m, a[1]); i >= 0 {
+			return TupleV{m.entries[i].v, mkBool(true)}
+		}
+		p.mapSet(m, a[1], a[2])
+		return TupleV{a[2], mkBool(false)}
+	})
+	reg("(*sync.Map).LoadAndDelete", func(p *Path, fn *ssa.Function, a []Value) Value {
+		m := syncMap(p, a[0])
+		if i := p.mapFind(m, a[1]); i >= 0 {
+			v := m.entries[i].v
+			p.mapDelete(m, a[1])
+			return TupleV{v, mkBool(true)}
+		}
+		return TupleV{nilIface, mkBool(false)}
+	})
+	reg("(*sync.Map).Delete", func(p *Path, fn *ssa.Function, a []Value) Value {
+		p.mapDelete(syncMap(p, a[0]), a[1])
+		return nil
+	})
+	reg("(*sync.Map).Range", func(p *Path, fn *ssa.Function, a []Value) Value {
+		m := syncMap(p, a[0])
+		for _, e := range append([]MapEntry(nil), m.entries...) {
+			r := p.callValue(a[1], []Value{e.k, e.v}, nil, nil)
+			if !p.decide(r.(*Term)) {
+				break
+			}
+		}
+		return nil
+	})
 	// assembly helpers
 	reg("ext:internal/bytealg.IndexByteString", func(p *Path, fn *ssa.Function, a []Value) Value {
 		return p.indexByte(strBytes(a[0].(StrV)), a[1].(*Term))
